@@ -190,6 +190,10 @@ func vModifiesMap[K comparable, V any](m map[K]V) {}
 // the maps that existed before.
 func vFreshMap[K comparable, V any](m map[K]V) bool { return m != nil }
 
+// vRangeSeen (invariants of range-over-map loops): the iteration has already produced key k
+// (Go produces each entry at most once).
+func vRangeSeen[K comparable](k K) bool { return false }
+
 // vBorrowed: the buffer is only lent to the target for the duration of the call: no view of it
 // (no sub-slice, no string sharing its bytes) may be stored in memory that outlives the call.
 // Checked at every store of the code under verification; in a contract it also tells callers
